@@ -373,6 +373,10 @@ func (e *episode) judge(run *hx.Run, what string, a eth2wrap.ActiveValidators, c
 			fetched = true
 		}
 	}
+	if n := len(calls); n > 0 && calls[n-1].ok && !calls[n-1].formed {
+		run.Violate("valcache:nil_validator_accepted", what+": the node's response had a nil validator and the call succeeded")
+		return
+	}
 	if !fetched {
 		switch {
 		case !e.everFetched:
@@ -454,6 +458,13 @@ func showEntry(en entry) string {
 	return fmt.Sprintf("%d:%d:%d:%s:%d", en.key, en.idx, en.pk, statusNames[en.status], en.act)
 }
 
+// checkHeadQuery: GetByHead asks the node at most once, and for the state "head".
+func checkHeadQuery(run *hx.Run, what string, calls []bnCall) {
+	if q := qStr(calls); q != "-" && q != "head" {
+		run.Violate("valcache:head_query_protocol", what+" asked the node for "+q+", expected at most one query for state head")
+	}
+}
+
 func (e *episode) checkQuery(run *hx.Run) {
 	if atomic.SwapInt32(&e.overlap, 0) != 0 {
 		run.Violate("valcache:bn_fetches_overlap", "two Validators queries of the cache were in flight at the same time (the cache asks the node under its write lock)")
@@ -473,6 +484,7 @@ func (e *episode) doHead(run *hx.Run) string {
 	a, c, err := e.vc.GetByHead(ctxTag("h"))
 	calls := e.takeLog()
 	e.checkQuery(run)
+	checkHeadQuery(run, "GetByHead", calls)
 	if err != nil {
 		if after := e.snap(); after != before {
 			run.Violate("valcache:error_changed_cache", fmt.Sprintf("GetByHead returned %v and the cache changed from %s to %s", err, before, after))
@@ -508,6 +520,7 @@ func (e *episode) viaStack(run *hx.Run, active bool) string {
 	if active {
 		name = "ActiveValidators"
 	}
+	checkHeadQuery(run, name, calls)
 	if err != nil {
 		if after := e.snap(); after != before {
 			run.Violate("valcache:error_changed_cache", fmt.Sprintf("%s returned %v and the cache changed from %s to %s", name, err, before, after))
@@ -701,6 +714,7 @@ func (e *episode) doSched(run *hx.Run, slot uint64) string {
 	s.HandleSlotVerif(ctx, core.Slot{Slot: slot, Time: slotTime, SlotDuration: 12 * time.Second, SlotsPerEpoch: spe})
 	calls := e.takeLog()
 	e.checkQuery(run)
+	checkHeadQuery(run, "scheduler", calls)
 	want := 0
 	for d := range s.SnapshotVerif().Duties {
 		if d.Slot == slot {
